@@ -1,4 +1,13 @@
-(* Model/DispatchC02.v — the timezone dispatch of Model/TzDispatch.v.  fn-table: TzDispatch *)
+(* Model/DispatchC02.v — the timezone dispatch of Model/TzDispatch.v (zone_probe, create) plus the history machine of Model/WallHistory.v.
+   hist: args = the operations of the history, each  opcode :: [zone window] :: scalars  (WallHistory.parse_op). *)
 From Coq Require Import ZArith List.
-From PV Require Import Model.TzDispatch.
-Definition dispatch (fn : Z) (args : list Z) : list Z := TzDispatch.dispatch fn args.
+From PV Require Import Model.TzDispatch Model.WallHistory.
+Import ListNotations.
+Open Scope Z_scope.
+Definition dispatch (fn : Z) (args : list Z) : list Z :=
+  match fn with
+  | 1 (* zone_probe *) => TzDispatch.dispatch 1 args
+  | 2 (* create *) => TzDispatch.dispatch 2 args
+  | 20 (* hist *) => WallHistory.run_history args
+  | _ => [9]
+  end.
